@@ -24,26 +24,35 @@ GENERATORS = {
     "Gen_Labels": {"tla": "MC_Labels.tla", "cfg": "Gen_Labels.cfg", "timeout": 900, "quick_sample": 1500},
 }
 
+# Conformance drivers.  A check reports every verdict whose clause is tagged with its property, whichever driver
+# produced the event; so each property runs every driver in which clauses tagged with it are exercised (hit
+# matrix computed over one quick run of all drivers; zero-hit combinations are left out).
+RXGEN = D("rxscn", "--scn", "@gen:Gen_Rx")
+RXGENF = D("rxscn", "--scn", "@gen:Gen_RxFaults")
+LABGEN = D("labels", "--scn", "@gen:Gen_Labels")
+TX = [D("lattice"), D("chains"), D("ext"), D("labels"), LABGEN]
+RX = [D("faults"), D("fuzzrx"), D("interleave"), D("frames"), D("memfaults"), RXGEN, RXGENF]
+UT = [D("utils")]
+
 PLAN = {
-    "C01": {"mc": ["MC_Frag", "MC_FragReal"], "drivers": [D("lattice"), D("chains")]},
-    "C02": {"mc": ["MC_Frag", "MC_FragReal", "MC_FragLive", "MC_Rx"], "drivers": [D("chains"), D("lattice")]},
-    "C03": {"mc": ["MC_Rx", "MC_Crc"], "drivers": [D("rxscn", "--scn", "@gen:Gen_Rx"), D("faults"), D("chains"), D("ext")]},
-    "C04": {"apalache": ["ApaLabels"], "mc": ["MC_Labels"], "drivers": [D("labels"), D("labels", "--scn", "@gen:Gen_Labels"), D("chains")]},
-    "C05": {"mc": ["MC_Wire", "MC_Rx"], "drivers": [D("fuzzrx"), D("faults"), D("ext")]},
-    "C06": {"mc": ["MC_Frag", "MC_FragReal", "MC_Wire"], "drivers": [D("lattice"), D("chains"), D("ext")]},
-    "C07": {"mc": ["MC_Rx"], "drivers": [D("rxscn", "--scn", "@gen:Gen_Rx"), D("interleave"), D("frames")]},
+    "C01": {"mc": ["MC_Frag", "MC_FragReal"], "drivers": TX + [D("faults"), D("fuzzrx"), D("interleave"), D("frames"), D("memfaults")] + UT},
+    "C02": {"mc": ["MC_Frag", "MC_FragReal", "MC_FragLive", "MC_Rx"], "drivers": TX + RX + UT},
+    "C03": {"mc": ["MC_Rx", "MC_Crc"], "drivers": [RXGEN, D("faults"), D("chains"), D("ext"), D("fuzzrx"), D("interleave"), D("frames"), D("memfaults"), D("labels")] + UT},
+    "C04": {"apalache": ["ApaLabels"], "mc": ["MC_Labels"], "drivers": [D("labels"), LABGEN, D("chains"), D("lattice"), D("ext"), D("faults"), D("fuzzrx"), D("memfaults"), D("interleave"), D("frames")]},
+    "C05": {"mc": ["MC_Wire", "MC_Rx"], "drivers": [D("fuzzrx"), D("faults"), D("ext"), D("chains"), D("labels"), D("interleave"), D("frames"), D("memfaults"), RXGEN, RXGENF] + UT},
+    "C06": {"mc": ["MC_Frag", "MC_FragReal", "MC_Wire"], "drivers": TX + [D("interleave"), D("frames")] + UT},
+    "C07": {"mc": ["MC_Rx"], "drivers": [RXGEN, RXGENF, D("interleave"), D("frames"), D("faults"), D("fuzzrx"), D("memfaults"), D("chains"), D("ext"), D("labels")] + UT},
     "C08": {"mc": ["MC_Rx", "MC_RxFaults", "MC_Memory"],
-            "drivers": [D("rxscn", "--scn", "@gen:Gen_Rx"), D("rxscn", "--scn", "@gen:Gen_RxFaults"), D("memfaults"), D("fuzzrx"), D("faults"),
-                        D("interleave"), D("labels")]},
-    "C09": {"mc": ["MC_Labels", "MC_Frag"], "drivers": [D("lattice"), D("labels"), D("ext")]},
-    "C10": {"mc": ["MC_Wire", "MC_Rx"], "drivers": [D("frames"), D("chains"), D("ext")]},
-    "C11": {"mc": ["MC_Frag", "MC_FragReal", "MC_FragLive"], "drivers": [D("lattice"), D("chains")]},
-    "C12": {"mc": ["MC_Crc"], "drivers": [D("crc"), D("chains"), D("lattice"), D("ext")]},
-    "C13": {"mc": ["MC_Wire", "MC_Frag"], "drivers": [D("extnew"), D("ext")]},
-    "C14": {"mc": ["MC_Header"], "drivers": [D("hdr")], "exhaustive": True},
-    "C15": {"apalache": ["ApaLabels"], "mc": ["MC_Labels"], "drivers": [D("labels"), D("labels", "--scn", "@gen:Gen_Labels"), D("lattice")]},
-    "C16": {"mc": ["MC_Rx"], "drivers": [D("rxscn", "--scn", "@gen:Gen_Rx"), D("fuzzrx"), D("faults"), D("memfaults")]},
-    "C17": {"mc": ["MC_Memory"], "drivers": [D("memops"), D("memops", "--scn", "@gen:Gen_Memory")]},
+            "drivers": [RXGEN, RXGENF, D("memfaults"), D("fuzzrx"), D("faults"), D("interleave"), D("labels"), D("chains"), D("ext"), D("frames")] + UT},
+    "C09": {"mc": ["MC_Labels", "MC_Frag"], "drivers": TX + [D("interleave"), D("frames")] + UT},
+    "C10": {"mc": ["MC_Wire", "MC_Rx"], "drivers": [D("frames"), D("chains"), D("ext"), D("lattice"), D("labels"), D("faults"), D("fuzzrx"), D("interleave"), D("memfaults"), RXGEN, RXGENF] + UT},
+    "C11": {"mc": ["MC_Frag", "MC_FragReal", "MC_FragLive"], "drivers": TX + [D("interleave"), D("frames")] + UT},
+    "C12": {"mc": ["MC_Crc"], "drivers": [D("crc"), D("chains"), D("lattice"), D("ext"), D("labels"), D("faults"), D("fuzzrx"), D("interleave"), D("frames"), D("memfaults")] + UT},
+    "C13": {"mc": ["MC_Wire", "MC_Frag"], "drivers": [D("extnew"), D("ext"), D("lattice"), D("chains"), D("labels"), LABGEN, D("faults"), D("fuzzrx"), D("interleave"), D("frames"), D("memfaults")] + UT},
+    "C14": {"mc": ["MC_Header"], "drivers": [D("hdr"), D("fuzzrx"), D("frames"), D("labels")], "exhaustive": True},
+    "C15": {"apalache": ["ApaLabels"], "mc": ["MC_Labels"], "drivers": [D("labels"), LABGEN, D("lattice"), D("chains"), D("ext"), D("interleave"), D("frames")]},
+    "C16": {"mc": ["MC_Rx"], "drivers": [RXGEN, D("fuzzrx"), D("faults"), D("memfaults")]},
+    "C17": {"mc": ["MC_Memory"], "drivers": [D("memops"), D("memops", "--scn", "@gen:Gen_Memory"), D("fuzzrx"), LABGEN]},
     "C18": {"mc": ["MC_Frag"], "drivers": [D("lattice")]},
     "C19": {"mc": ["MC_Wire"], "drivers": [D("chains"), D("frames"), D("ext")]},
     "C20": {"mc": ["MC_Wire"], "drivers": [D("utils")]},
